@@ -447,6 +447,25 @@ def w_memory_limits(ctx, rng, i):
     evs = [e for e in s["events"] if e and e["op"] == "data"]
     keep = MEM - start + 1
     ctx.check("memory.blocks", sum(e["n"] for e in evs) == min(n, keep) and bool(s["warnings"]) == (n > keep), f"data of {n} bits at address {start}: wrote {sum(e['n'] for e in evs)} bits, warnings {len(s['warnings'])}")
+    # per-channel (2-D) data: the limit applies to the pattern length of each channel, not to the number of channels
+    nb = int(rng.integers(1, 6))
+    st = MEM - nb + 1 - int(rng.integers(0, 2)) * int(rng.integers(0, 3))
+    rows = rng.integers(0, 2, (4, nb + int(rng.integers(0, 4))))
+    with session(ctx, ppg, inst) as s3:
+        ppg.set_data(rows if rng.integers(2) else rows.tolist(), st, None)
+    ev3 = [e for e in s3["events"] if e and e["op"] == "data"]
+    fit = min(rows.shape[1], MEM - st + 1)
+    ctx.check("memory.blocks", sorted(e["ch"] for e in ev3) == [1, 2, 3, 4] and all(e["addr"] == st and e["n"] == fit for e in ev3) and bool(s3["warnings"]) == (rows.shape[1] > fit),
+              f"per-channel data of {rows.shape[1]} bits at address {st}: blocks {[(e['ch'], e['addr'], e['n']) for e in ev3]}, expected {fit} bits on each of 4 channels; warnings {len(s3['warnings'])}")
+    if not any(e.get("bad") for e in ev3):
+        with session(ctx, ppg, inst) as s4:
+            got = ppg.get_data(fit, st, None)
+        ok = True
+        try:
+            ok = all(np.array_equal(np.ravel(np.asarray(got[j])).astype(int), rows[j, :fit]) for j in range(4))
+        except Exception:
+            ok = False
+        ctx.check("memory.roundtrip", ok, f"per-channel data near the end of the memory ({fit} bits at {st}) does not read back")
     with session(ctx, ppg, inst) as s2:
         ppg.get_data(int(rng.integers(1, 2000)), int(rng.choice([0, -3, MEM + 5, MEM, 1])), 2)
         ppg.get_data(int(rng.choice([0, -1, MEM + 10])), 1, 3)
@@ -552,7 +571,7 @@ WORKLOADS = [
     Workload("setters", w_setters, 1500, 100000),
     Workload("misc_commands", w_misc_commands, 200, 10000),
     Workload("memory", w_memory, 160, 8000, budget=120),
-    Workload("memory_limits", w_memory_limits, 30, 1000, budget=120),
+    Workload("memory_limits", w_memory_limits, 60, 2000, budget=120),
     Workload("history", w_history, 24, 2000, budget=120),
     Workload("sync", w_sync, 240, 12000, budget=60),
 ]
